@@ -283,6 +283,16 @@ def wrapper_guards(rel):
                 if recv and isinstance(a, ast.If) and child in a.body and dotted(a.test) in (recv + ".requires_grad", recv + "._requires_grad"):
                     ok = True
                 child = a
+            if not ok and recv:
+                # the guard written as an early exit: a statement of the function body in front of the store reads `if not <t>.requires_grad: return ...` (every path of its
+                # body leaves the function, no else branch), so the store is only reached when the flag is set
+                top = next((st for st in fn.body if st is s or s in list(ast.walk(st))), None)
+                for st in fn.body:
+                    if st is top:
+                        break
+                    if (isinstance(st, ast.If) and not st.orelse and isinstance(st.test, ast.UnaryOp) and isinstance(st.test.op, ast.Not)
+                            and dotted(st.test.operand) in (recv + ".requires_grad", recv + "._requires_grad") and st.body and isinstance(st.body[-1], (ast.Return, ast.Raise))):
+                        ok = True
             if ok:
                 guarded.append(s)
             else:
